@@ -164,14 +164,13 @@ func (a *Aggregator[VR, GE, S, M]) Aggregate(
 		}
 	}
 
-	var bigR GE
-	if a.IsCosigning() {
-		bigR = a.bigR
-	} else {
-		bigR = iterutils.Reduce(slices.Values(partialSignatures.Values()),
-			a.group.OpIdentity(), func(acc GE, x *lindell22.PartialSignature[GE, S]) GE { return acc.Op(x.Sig.R) },
-		)
-	}
+	// The aggregate nonce commitment is the sum of the (parity-corrected) partial ones in both modes.
+	// The cosigner's own state holds the aggregate BEFORE the variant's parity correction: for a
+	// variant that negates the nonces when R has odd y (BIP-340, Mina) that is −R, and a verifier
+	// that compares full points (Mina) rejects the honest signature.
+	bigR := iterutils.Reduce(slices.Values(partialSignatures.Values()),
+		a.group.OpIdentity(), func(acc GE, x *lindell22.PartialSignature[GE, S]) GE { return acc.Op(x.Sig.R) },
+	)
 	s := iterutils.Reduce(slices.Values(partialSignatures.Values()),
 		a.sf.Zero(), func(acc S, x *lindell22.PartialSignature[GE, S]) S { return acc.Add(x.Sig.S) },
 	)
